@@ -524,7 +524,10 @@ class Lattice(Unit):
                     rec.witness("substitution differs from default at a location")
                 for x, y in zip(ra, rb):
                     if any(abs(x[i] - y[i]) > tolp for i in (2, 3, 4, 5)):
-                        rec.violation("shaping:positions:" + fkind, "%s text %r glyph %s: (xadv, yadv, xoff, yoff) %s in the original, %s in the instance (tolerance %d)" % (where, text, x[0], x[2:], y[2:], tolp), observed=y[2:], expected=x[2:])
+                        clsp = "shaping:positions:" + fkind
+                        if "GPOS" in O.font and getattr(O.font["GPOS"].table, "FeatureVariations", None) and E.fv_pinned_shape(O.font, ctx.status, ctx.n_d):
+                            clsp = "shaping:positions:feature-variation-record-on-pinned-axes-holds-while-other-records-remain"
+                        rec.violation(clsp, "%s text %r glyph %s: (xadv, yadv, xoff, yoff) %s in the original, %s in the instance (tolerance %d)" % (where, text, x[0], x[2:], y[2:], tolp), observed=y[2:], expected=x[2:])
                         break
                 if O.gdef_info is not None and len(ra) == 2:
                     if ra[1][4] or ra[1][5]:
